@@ -79,7 +79,7 @@ def doc : Doc :=
       .plain (.loop [a!"_a", a!"_t"] [[
         .lst [.enc (a!"abcd") (a!"> \\\\\n> ab\\\n> cd")],
         .tbl [(a!"k", .tsquote, .lst [.str (a!"t") .text]), (a!"p", .dquote, .str [120, 0xD83D, 0xDE00] .squote)]]]),
-      .frame (a!"f") [.item (a!"_x") (.str (a!";semi") .bare)],
+      .frame (a!"f") [.plain (.item (a!"_x") (.str (a!";semi") .bare))],
       .plain (.item (a!"_q") .unk)] },
    { code := a!"c[1]", body := [.plain (.item (a!"_y") (.str (a!"it's") .dquote))] }]
 
